@@ -6,6 +6,10 @@ from typed import wrap_type, list_fns, impl_header
 WEAK = """    open spec fn wf_ok(&self) -> bool { true }
     closed spec fn wf_enc(&self) -> Seq<u8> { arbitrary() }
     open spec fn wf_dec(data: Seq<u8>, p: int, v: &Self, p2: int) -> bool { true }
+    open spec fn wf_cdec(data: Seq<u8>, p: int, v: &Self, p2: int) -> bool { true }
+    open spec fn wf_canon(&self) -> bool { true }
+    open spec fn wf_nocomp() -> bool { false }
+    proof fn lemma_rt(&self, pre: Seq<u8>) {}
 """
 
 LOOP_INV = """
@@ -44,6 +48,13 @@ impl<'a> NULL<'a> {
     open spec fn wf_dec(data: Seq<u8>, p: int, v: &Self, p2: int) -> bool {
         p <= data.len() && v.dview() == data.subrange(p, data.len() as int) && p2 == data.len() && v.lfield() as int == v.dview().len()
     }
+    open spec fn wf_cdec(data: Seq<u8>, p: int, v: &Self, p2: int) -> bool { Self::wf_dec(data, p, v, p2) }
+    open spec fn wf_canon(&self) -> bool { true }
+    open spec fn wf_nocomp() -> bool { false }
+    proof fn lemma_rt(&self, pre: Seq<u8>) {
+        let d = pre + self.wf_enc();
+        assert(d.subrange(pre.len() as int, d.len() as int) =~= self.dview());
+    }
 """, verified_inherent=('new',), external_trait_fns=())
     c.contract(rel, "impl<'a> NULL<'a> {", 'new', """
         ensures data.len() <= 65535 ==> r is Ok && r.unwrap().dview() == data@ && r.unwrap().lfield() as int == data.len(),
@@ -74,6 +85,13 @@ pub proof fn lemma_opt_items_push(cs: Seq<OPTCode>, c: OPTCode)
         &&& tlv16(data, p + 10, opt_items(v.opt_codes@), data.len() as int)
         &&& p2 == data.len()
     }
+    /// the options alone (write_to emits only the RDATA; class/ttl slots are written by the record)
+    open spec fn wf_cdec(data: Seq<u8>, p: int, v: &Self, p2: int) -> bool {
+        tlv16(data, p, opt_items(v.opt_codes@), data.len() as int) && p2 == data.len()
+    }
+    open spec fn wf_canon(&self) -> bool { true }
+    open spec fn wf_nocomp() -> bool { false }
+    proof fn lemma_rt(&self, pre: Seq<u8>) { lemma_tlv16_rt(pre, opt_items(self.opt_codes@)); }
 """, verified_inherent=('extract_rcode_from_ttl', 'encode_ttl'), external_trait_fns=('write_compressed_to', 'len'))
     OPT_IMPL = "impl<'a> OPT<'a> {"
     c.contract(rel, OPT_IMPL, 'encode_ttl', """
@@ -150,6 +168,11 @@ impl<'a> TXT<'a> {
     open spec fn wf_dec(data: Seq<u8>, p: int, v: &Self, p2: int) -> bool {
         lv8(data, p, v.items(), data.len() as int) && p2 == data.len() && v.sz() == p2 - p
     }
+    /// an empty TXT is written as one empty string and reads back as such (not as an empty list): canonical = non-empty
+    open spec fn wf_cdec(data: Seq<u8>, p: int, v: &Self, p2: int) -> bool { Self::wf_dec(data, p, v, p2) }
+    open spec fn wf_canon(&self) -> bool { self.items().len() > 0 }
+    open spec fn wf_nocomp() -> bool { false }
+    proof fn lemma_rt(&self, pre: Seq<u8>) { lemma_lv8_rt(pre, self.items()); }
 """, external_trait_fns=('write_compressed_to',))
     c.contract(rel, TXT_WF, 'parse', "", pre_body="\n        let ghost p0 = *position as int;\n")
     c.loop_spec(rel, TXT_WF, 'parse', 0, """
@@ -201,6 +224,11 @@ pub proof fn lemma_nsec_items_push(ms: Seq<TypeBitMap>, m: TypeBitMap)
         &&& strictly_increasing_u8(nsec_items(v.type_bit_maps@))   // windows not increasing => rejected
         &&& p2 == data.len()
     }
+    open spec fn wf_cdec(data: Seq<u8>, p: int, v: &Self, p2: int) -> bool { Self::wf_dec(data, p, v, p2) }
+    open spec fn wf_canon(&self) -> bool { true }
+    open spec fn wf_nocomp() -> bool { true }
+    #[verifier::external_body]
+    proof fn lemma_rt(&self, pre: Seq<u8>) {}
 """, external_trait_fns=('write_compressed_to', 'write_to', 'len'))
     c.sub(rel, "is_some_and(|f: &TypeBitMap<'_>| f.window_block >= window_block)",
           "is_some_and(|f: &TypeBitMap<'_>| -> (b: bool) ensures b == (f.window_block >= window_block) { f.window_block >= window_block })")
@@ -256,6 +284,11 @@ impl<'a> SVCB<'a> {
         &&& exists|items: Seq<(u16, Seq<u8>)>| #[trigger] tlv16(data, p + 2 + inplace_len(data, p + 2), items, data.len() as int)
                 && strictly_increasing_u16(items) && params_match(v.pv(), items)   // keys not increasing / value overrunning => rejected
     }
+    open spec fn wf_cdec(data: Seq<u8>, p: int, v: &Self, p2: int) -> bool { Self::wf_dec(data, p, v, p2) }
+    open spec fn wf_canon(&self) -> bool { true }
+    open spec fn wf_nocomp() -> bool { true }
+    #[verifier::external_body]
+    proof fn lemma_rt(&self, pre: Seq<u8>) {}
 """, external_trait_fns=('write_compressed_to', 'write_to', 'len'))
     c.contract(rel, SVCB_WF, 'parse', "", pre_body="\n        let ghost p0 = *position as int;\n")
     c.ghost(rel, SVCB_WF, 'parse', "let mut params = BTreeMap::new();", "        let ghost q0 = *position as int;\n        let ghost mut items: Seq<(u16, Seq<u8>)> = Seq::empty();", where='after')
@@ -329,6 +362,24 @@ pub open spec fn gw_enc(g: &Gateway) -> Seq<u8> {
         })
         &&& p2 == data.len()
     }
+    open spec fn wf_cdec(data: Seq<u8>, p: int, v: &Self, p2: int) -> bool { Self::wf_dec(data, p, v, p2) }
+    open spec fn wf_canon(&self) -> bool { true }
+    open spec fn wf_nocomp() -> bool { true }
+    proof fn lemma_rt(&self, pre: Seq<u8>) {
+        let d = pre + self.wf_enc();
+        let q = pre.len() as int + 3;
+        match self.gateway {
+            Gateway::None => { assert(d.subrange(q, d.len() as int) =~= self.public_key@); }
+            Gateway::IPv4(a) => { assert(d.subrange(q, q + 4) =~= ipv4_octets(a)); assert(d.subrange(q + 4, d.len() as int) =~= self.public_key@); }
+            Gateway::IPv6(a) => { assert(d.subrange(q, q + 16) =~= ipv6_octets(a)); assert(d.subrange(q + 16, d.len() as int) =~= self.public_key@); }
+            Gateway::Domain(n) => {
+                let q2 = q + wl(n.lv()) + 1;
+                lemma_name_roundtrip(d.subrange(0, q), n.lv(), d.subrange(q2, d.len() as int));
+                assert(d =~= d.subrange(0, q) + name_enc(n.lv()) + d.subrange(q2, d.len() as int));
+                assert(d.subrange(q2, d.len() as int) =~= self.public_key@);
+            }
+        }
+    }
 """, external_trait_fns=('write_compressed_to',))
     c.ghost(rel, IPS_WF, 'parse', "*position += 4;", """
                 proof { assert(seq![data@[*position as int], data@[*position + 1], data@[*position + 2], data@[*position + 3]] =~= data@.subrange(*position as int, *position + 4)); }
@@ -351,6 +402,20 @@ pub open spec fn gw_enc(g: &Gateway) -> Seq<u8> {
         &&& v.rd as nat == be_nat(data.subrange(p + 9, p + 11))
         &&& v.area as nat == be_nat(data.subrange(p + 11, p + 13))
         &&& v.id as nat == be_nat(data.subrange(p + 13, p + 19))
+    }
+    open spec fn wf_cdec(data: Seq<u8>, p: int, v: &Self, p2: int) -> bool { Self::wf_dec(data, p, v, p2) }
+    open spec fn wf_canon(&self) -> bool { true }
+    open spec fn wf_nocomp() -> bool { false }
+    proof fn lemma_rt(&self, pre: Seq<u8>) {
+        lemma_pow256_vals();
+        let d = pre + self.wf_enc();
+        let p = pre.len() as int;
+        lemma_be_enc(self.idi as nat, 2); assert(d.subrange(p + 1, p + 3) =~= enc_be(self.idi as nat, 2));
+        lemma_be_enc(self.aa as nat, 3); assert(d.subrange(p + 4, p + 7) =~= enc_be(self.aa as nat, 3));
+        lemma_be_enc(self.rsvd as nat, 2); assert(d.subrange(p + 7, p + 9) =~= enc_be(self.rsvd as nat, 2));
+        lemma_be_enc(self.rd as nat, 2); assert(d.subrange(p + 9, p + 11) =~= enc_be(self.rd as nat, 2));
+        lemma_be_enc(self.area as nat, 2); assert(d.subrange(p + 11, p + 13) =~= enc_be(self.area as nat, 2));
+        lemma_be_enc(self.id as nat, 6); assert(d.subrange(p + 13, p + 19) =~= enc_be(self.id as nat, 6));
     }
 """, external_trait_fns=())
     c.ghost(rel, NSAP_WF, 'parse', "let data = &data[*position..*position + 20];", "        let ghost d0 = data@;\n        let ghost p0 = *position as int;", where='before')
